@@ -457,7 +457,7 @@ let handle (fields : string list) : string * string =
     let cfg = { d_mode = mode; d_hosts = hosts; d_split = flags.[0] = '1'; d_template = (if tmpl = "-" then [] else bytes_of_hex tmpl);
                 d_nousername = flags.[1] = '1'; d_gateway = bytes_of_hex gw; d_signing_key = List.init 32 (fun _ -> byte_of_int 0x53) } in
     let qhost = if qterm = "-" then None else
-        Model.query_info (key_of_name "Q") (to_b "rdpgw-query") Z0 (jws_of_term qterm) in
+        Model.query_info (key_of_name "Q") (if String.length flags > 3 && flags.[3] = '0' then [] else to_b "rdpgw-query") Z0 (jws_of_term qterm) in
     let req = { q_authenticated = (login = "ok"); q_user = bytes_of_hex user; q_access_token = bytes_of_hex at;
                 q_client_ip = bytes_of_hex cip;
                 q_param = (match param with "none" -> None | "empty" -> Some [] | p -> Some (bytes_of_hex p));
